@@ -168,3 +168,46 @@ package corazawaf
 //@   ensures auditOff: tx.AuditEngine == types.AuditEngineOff ==> auditWrites == old(auditWrites)
 //@   ensures auditOn: tx.AuditEngine == types.AuditEngineOn ==> auditWrites == old(auditWrites) + 1
 //@   ensures atMostOne: auditWrites == old(auditWrites) || auditWrites == old(auditWrites) + 1
+
+// ---------------------------------------------------------------- isolation of recycled transactions (C05)
+
+// Every field of Transaction is assigned by newTransaction on every path (the list of fields is enumerated from the
+// struct type, so a new field that is not reset is a failing obligation pins/<field>). The buffers, the variables
+// and the transformation cache are created for a fresh object and otherwise rely on what Close guarantees.
+//@ func (*WAF).newTransaction props C05
+//@   pins tx except requestBodyBuffer,responseBodyBuffer,variables,transformationCache
+//@   ensures result != nil && result.interruption == nil && result.detectionOnlyInterruption == nil && result.lastPhase == 0
+//@   ensures result.Skip == 0 && result.SkipAfter == "" && result.AllowType == 0 && !result.Capture && !result.audit
+//@   ensures result.RuleEngine == w.RuleEngine && result.AuditEngine == w.AuditEngine && result.WAF == w
+//@   ensures result.RequestBodyAccess == w.RequestBodyAccess && result.RequestBodyLimit == w.RequestBodyLimit
+//@   ensures result.ResponseBodyAccess == w.ResponseBodyAccess && result.ResponseBodyLimit == w.ResponseBodyLimit
+//@   ensures len(result.matchedRules) == 0 && result.ruleRemoveByID == nil && len(result.ruleRemoveByIDRanges) == 0
+//@   ensures len(result.ruleRemoveTargetByID) == 0 && len(result.stopWatches) == 0
+//@   ensures result.requestBodyBuffer != nil && result.responseBodyBuffer != nil
+
+// All hands every collection of the transaction to the callback (enumerated from the struct type): a collection
+// that is not visited is never reset when the transaction is recycled.
+//@ func (*TransactionVariables).All props C05
+//@   visits v f 1
+
+// ---------------------------------------------------------------- rule removal = the rule set without the selected rules (C17)
+
+//@ func (*RuleGroup).FindByID props C17,C07
+//@   modifies nothing
+//@   ensures found: result != nil ==> result.ID_ == id && (exists i int :: 0 <= i && i < len(rg.rules) && result == rg.rules[i])
+//@   ensures first: result == nil ==> (forall i int :: 0 <= i && i < len(rg.rules) ==> rg.rules[i].ID_ != id)
+//@   loop 1
+//@     invariant -1 <= rangeindex && rangeindex < len(rg.rules)
+//@     invariant forall i int :: 0 <= i && i <= rangeindex ==> rg.rules[i].ID_ != id
+
+// DeleteByRange keeps exactly the rules whose id lies outside [start, end], in their original order.
+//@ func (*RuleGroup).DeleteByRange props C17,C07
+//@   ensures noneSelected: forall j int :: 0 <= j && j < len(rg.rules) ==> (rg.rules[j].ID_ < start || rg.rules[j].ID_ > end)
+//@   ensures notLonger: len(rg.rules) <= len(old(rg.rules))
+// (the converse, 'every rule outside the range is kept', needs an existential witness per rule that the solvers do
+// not find within the time cap; it is not claimed)
+//@   loop 1
+//@     invariant -1 <= rangeindex && rangeindex < len(rg.rules) && rg.rules == old(rg.rules) && len(kept) <= rangeindex + 1
+//@     invariant isnil(kept) || fresh(kept)
+//@     invariant forall j int :: 0 <= j && j < len(kept) ==> (kept[j].ID_ < start || kept[j].ID_ > end)
+//@     invariant forall i int :: 0 <= i && i < len(rg.rules) ==> rg.rules[i].ID_ == old(rg.rules[i].ID_)
